@@ -142,7 +142,10 @@ func runUniq(paths []string, dir string, res *vh.Result) {
 			vh.Fatalf("create table: %v", x.Err)
 		}
 		if x := e.exec(0, fmt.Sprintf("CREATE UNIQUE INDEX ON %s(%s)", t, strings.Join(uf.Idx, ","))); x.Err != nil {
-			vh.Fatalf("create index: %v", x.Err)
+			// the table was committed by the statement before: a following transaction of the same engine must see it
+			devs = append(devs, deviation{Origin: "SQLUniq " + name + " set-up", Class: "catalog-mismatch", Kind: "crIdx",
+				Text: fmt.Sprintf("CREATE UNIQUE INDEX ON %s(..) right after the committed CREATE TABLE %s fails: %v", t, t, x.Err)})
+			continue
 		}
 		for ci, c := range uf.Cases {
 			base := (ci + 1) * 10
@@ -165,8 +168,8 @@ func runUniq(paths []string, dir string, res *vh.Result) {
 					rows = e.uScan(t, base)
 				}
 				dev := func(class, text string) {
-					devs = append(devs, deviation{B: ci, Origin: "SQLUniq " + tag + " hist=" + c.Hist, Step: si, Class: class, Kind: st.K,
-						Text: fmt.Sprintf("%s  [index (%s); history: %s]", text, strings.Join(uf.Idx, ","), strings.Join(sqls, "; ")), SQL: sqls})
+					devs = append(devs, deviation{B: ci, Origin: "SQLUniq " + tag, Step: si, Class: class, Kind: st.K,
+						Text: fmt.Sprintf("%s  [index (%s); history %q: %s]", text, strings.Join(uf.Idx, ","), c.Hist, strings.Join(sqls, "; ")), SQL: sqls})
 				}
 				if rows != nil {
 					if dup, nullFree, what := uBreach(rows, uf.Idx); dup {
